@@ -182,6 +182,12 @@ CLI_LAYOUTS = [
     ({"a.mac": SRC}, ".", ["a.mac", "-o", "out.bin", "--charset", "koi8-r"], {"out.bin": ("bin", None)}),
     ({"a.mac": SRC + "make_wav \"t.wav\", \"ИМЯ\"\n"}, ".", ["a.mac", "--charset", "koi8-r"], {"t.wav": ("bk_wav", ("koi8-r", "ИМЯ"))}),
     ({"a.mac": SRC + "make_wav \"t.wav\", \"ИМЯ\"\n"}, ".", ["a.mac", "--charset", "utf-8"], {"t.wav": ("bk_wav", ("utf-8", "ИМЯ"))}),
+    # output paths and tape names computed per iteration of a '.repeat' (a <n> chunk that depends on '.')
+    ({"a.mac": "\t.link 1000\nstart:\t.repeat 3 {\n\tmov #start, r0\nmake_raw \"part\" <60 + <.-start>/4> \".raw\"\n\t}\n"}, ".", ["a.mac"],
+     {"part1.raw": ("raw", None), "part2.raw": ("raw", None), "part3.raw": ("raw", None)}, "", b"\xc0\x15\x00\x02" * 3),
+    ({"a.mac": "\t.link 1000\nstart:\t.repeat 2 {\n\tmov #start, r0\nmake_wav \"t\" <60 + <.-start>/4> \".wav\", \"N\" <100 + <.-start>/4>\n\t}\n"}, ".", ["a.mac"],
+     {"t1.wav": ("bk_wav", "NA"), "t2.wav": ("bk_wav", "NB")}, "", b"\xc0\x15\x00\x02" * 2),
+    ({"a.mac": "\t.link 1000\nstart:\tmov #start, r0\nmake_bin \"o\" <60 + n> \".bin\"\nn = 5\n"}, ".", ["a.mac"], {"o5.bin": ("bin", None)}, "", b"\xc0\x15\x00\x02"),
     # standard output as the output "path" and standard input as the source
     ({"a.mac": SRC}, ".", ["a.mac", "-o", "-"], {"<stdout>": ("raw", None)}),
     ({"a.mac": SRC}, ".", ["a.mac", "-o-.bin"], {"<stdout>": ("bin", None)}),
@@ -238,8 +244,10 @@ def check(case, r, tier):
         check_format(r, case["fmt"], case["base"], data, _p(case["name"]), None, case)
         return
     if k == "cli":
-        tree, cwd, argv, want = CLI_LAYOUTS[case["i"]][:4]
-        run_cli(r, tree, cwd, argv, want, 0o1000, IMG, ("cli", case["i"]), stdin_text=(CLI_LAYOUTS[case["i"]] + ("",))[4])
+        lay = CLI_LAYOUTS[case["i"]]
+        lay = lay + ("", IMG)[len(lay) - 4:]
+        tree, cwd, argv, want = lay[:4]
+        run_cli(r, tree, cwd, argv, want, 0o1000, lay[5], ("cli", case["i"]), stdin_text=lay[4])
         return
     if k == "cli-layout":
         # replay of one recorded layout
